@@ -336,6 +336,41 @@ func cmdCheck(record bool, args []string) int {
 			}
 		}
 	}
+	// functions declared concurrent (status fetchers running beside the handlers) read no unguarded mutable field
+	{
+		var mutable map[string]string
+		for _, fn := range fns {
+			c := w.contractFor(fn.String())
+			if c == nil || !c.Concurrent {
+				continue
+			}
+			if mutable == nil {
+				var all []*ssa.Function
+				for _, n := range sortedFuncNames(idx) {
+					if f := idx[n]; f.Pkg != nil && f.Synthetic == "" && strings.HasPrefix(f.Pkg.Pkg.Path(), "go.universe.tf/metallb") {
+						all = append(all, f)
+					}
+				}
+				mutable = w.mutableFields(all)
+			}
+			bad := w.concurrentReads(fn, mutable)
+			var flds []string
+			for k := range bad {
+				flds = append(flds, k)
+			}
+			sort.Strings(flds)
+			name := shortFuncName(fn)
+			if len(flds) == 0 {
+				coverageFails = append(coverageFails, &OblResult{Name: name + "#concurrent.read", Func: name, Kind: "concurrent.read", Status: "unsat", Solver: "audit",
+					Clause: "a function running beside the handlers reads no field that is written elsewhere unless a mutex guards it"})
+			}
+			for _, fld := range flds {
+				coverageFails = append(coverageFails, &OblResult{Name: name + "#concurrent.read{" + fld + "}", Func: name, Kind: "concurrent.read", Status: "sat", Solver: "audit",
+					Clause:  "a function running beside the handlers reads no field that is written elsewhere unless a mutex guards it",
+					Output:  "reads " + fld + ", which " + bad[fld] + " writes and no guarded_by declaration covers", Pos: w.prog.Fset.Position(fn.Pos()).String()})
+			}
+		}
+	}
 	// lemmas (those applied inside function VCs are always proved in the same run)
 	// a lemma applied in a function is proved together with the lemmas declared before it in its package (its hypotheses)
 	for n := range w.usedLemmas {
